@@ -892,7 +892,7 @@ class SoftwareSwitchBase (object):
       vl.payload = packet.payload
       packet.type = ethernet.VLAN_TYPE
       packet.payload = vl
-    packet.payload.id = action.vlan_vid
+    packet.payload.id = action.vlan_vid & 0x0fff
     return packet
   def _action_set_vlan_pcp (self, action, packet, in_port):
     if not isinstance(packet.payload, vlan):
@@ -901,7 +901,7 @@ class SoftwareSwitchBase (object):
       vl.eth_type = packet.type
       packet.payload = vl
       packet.type = ethernet.VLAN_TYPE
-    packet.payload.pcp = action.vlan_pcp
+    packet.payload.pcp = action.vlan_pcp & 0x07
     return packet
   def _action_strip_vlan (self, action, packet, in_port):
     if isinstance(packet.payload, vlan):
